@@ -1,6 +1,7 @@
 SPECIFICATION Spec
 CONSTANTS
   Configs <- SanityConfigs
+  JudgeBy = "last"
   CheckVHash = FALSE
 VIEW view
 INVARIANTS TypeOK CodeEqualsDecl AcceptImpliesLinked AcceptImpliesQuorumOfDistinctGoodSigners AcceptImpliesEverySlotVerifies VerifyCommitSound VerifyCommitEverySlotVerifies HeightOneEmptyCommit TamperAnyFieldRejected
